@@ -9,7 +9,7 @@ from ..cfg import NORMAL, Node, handler_classes
 from ..core import Ctx
 from ..flow import ALL, find_path, names_in
 from ..model import AnalysisError, FunctionInfo, dotted, norm_text
-from .common import edge_target, handler_exits, handler_nodes, in_handler, in_try_body, kwarg, reachable_from
+from .common import edge_target, resolve_value, handler_exits, handler_nodes, in_handler, in_try_body, kwarg, reachable_from
 
 EXPLANATION = (
     "Static analysis of the pruning decision: (R1) ORDER-TYPE abstract interpretation - _file_may_match touches file_min, "
@@ -477,22 +477,17 @@ def r5r6(ctx: Ctx) -> None:
     # the stored bound is the UNTRANSFORMED pc.min / pc.max of the column
     for st in stores:
         v = st.ast.value  # type: ignore[union-attr]
-        chain_ok = False
-        why = norm_text(v)
-        if isinstance(v, ast.Name):
-            defs = ctx.rd(cb).reaching(st.id, v.id)
-            rhs = [g.nodes[d].ast.value for d in defs if isinstance(g.nodes[d].ast, ast.Assign)]
-            why = " | ".join(norm_text(x) for x in rhs)
-            ok_each = []
-            for x in rhs:
-                if isinstance(x, ast.Call) and isinstance(x.func, ast.Attribute) and x.func.attr == "as_py" and isinstance(x.func.value, ast.Name):
-                    d2 = ctx.rd(cb).reaching(defs[0], x.func.value.id)
-                    r2 = [g.nodes[d].ast.value for d in d2 if isinstance(g.nodes[d].ast, ast.Assign)]
-                    want = "pc.min" if "lower" in norm_text(st.ast.targets[0]) else "pc.max"  # type: ignore[union-attr]
-                    ok_each.append(bool(r2) and all(isinstance(y, ast.Call) and (dotted(y.func) or "") == want for y in r2))
-                else:
-                    ok_each.append(False)
-            chain_ok = bool(ok_each) and all(ok_each) and len(defs) == len(rhs)
+        want = "pc.min" if "lower" in norm_text(st.ast.targets[0]) else "pc.max"  # type: ignore[union-attr]
+        srcs = [(x, a) for x, a in resolve_value(ctx, cb, v, st.id) if not (isinstance(x, ast.Constant) and x.value is None)]
+        why = " | ".join(norm_text(x) for x, _a in srcs if x is not None)
+        ok_each = []
+        for x, a in srcs:
+            if isinstance(x, ast.Call) and isinstance(x.func, ast.Attribute) and x.func.attr == "as_py" and not x.args:
+                inner = resolve_value(ctx, cb, x.func.value, a)
+                ok_each.append(bool(inner) and all(isinstance(y, ast.Call) and (dotted(y.func) or "") == want for y, _b in inner))
+            else:
+                ok_each.append(False)
+        chain_ok = bool(ok_each) and all(ok_each)
         ctx.ob("C13.R5", cb, "stored bound = pc.min/pc.max(column).as_py(), untransformed", st, chain_ok,
                f"value chain `{why}`: any truncation / rounding / sentinel makes the stored interval narrower than the data and "
                "prunes files that hold matching rows")
